@@ -431,6 +431,39 @@ def check(prop, tier, seed, replay=None):
         lines.append("KNOWN-FINDING: property=%s %s (%d events) %s" % (prop, kfid, cnt, known[kfid]["site"]))
         cov["known_findings_met"].append({"id": kfid, "events": cnt})
 
+    # ---- 4a. C13: every call shape Shapes.tla enumerates (validate_buffers case table)
+    if prop == "C13":
+        from . import shapes
+        for nch in ([1, 2] if tier == "quick" else [1, 2, 3]):
+            vcases, _ = shapes.cases(nch, wd, prop, cov)
+            vs, ve = shapes.validate_scripts(vcases, nch, rng, per_script=60,
+                                             nscripts={"quick": 40, "thorough": 400}[tier])
+            vpairs = run.run_scripts([("v%d-%05d" % (nch, k), o) for k, o in enumerate(vs)], wd, prefix="v%d" % nch)
+            vres = run.validate_traces(vpairs, preds, wd, tag=prop + "v%d" % nch)
+            cov["states"] += vres["states"]
+            cov["transitions"] += vres["transitions"]
+            cov["traces_validated_against_impl"] += vres["traces"]
+            cov["scripts"]["shape_cases_nch%d" % nch] = sum(len(x) for x in ve)
+            nd = 0
+            for (sp, tp_), ex in zip(vpairs, ve):
+                d = shapes.compare_validate(ex, run.read_trace(tp_))
+                if d:
+                    nd += 1
+                    if nd <= 3:
+                        keep = run.save_replay(prop, sp)
+                        lines.append("MODEL-DRIFT property=%s first=%s field=%s" % (prop, keep, d[0]))
+            ndrift += nd
+            vseen = set()
+            for kind, name, script, line, ev, kfid in vres["viols"]:
+                if kind == "KNOWN" and kfid in known and prop in known[kfid]["properties"]:
+                    continue
+                if (script, name) in vseen:
+                    continue
+                vseen.add((script, name))
+                nviol += 1
+                keep = run.save_replay(prop, script)
+                lines.append("VIOLATION property=%s replay=%s predicate=%s line=%d" % (prop, keep, name, line))
+
     # ---- 4b. C12/C13: "a rejected call changes nothing": twin that never saw the rejected calls
     if prop in ("C12", "C13"):
         tw = noop_twin_scripts(prop, tier, rng)
